@@ -21,6 +21,9 @@ def run(rep, idx, tier):
     rep.analysed(c.fi.site)
     rep.count("drivers", len(c.t.drivers))
     site = c.fi.site
+    # the window list the decoder decodes with is the map's current one (no stale memo in the queries it uses)
+    from .c02 import query_coherence
+    query_coherence(rep, idx, rule="C06.1", only=("window_patterns", "windows", "get", "overlaps", "items"))
     if not require_supported(rep, "C06.1", c):
         return
     r = glue.decoder_roles(rep, "C06.1", c, "self.bus.addr")
